@@ -102,6 +102,9 @@ func (g *gen) Add(name string, typs []types.Type) (string, error) {
 	if len(typs) != 1 {
 		return "", fmt.Errorf("%s does not have one argument", name)
 	}
+	if basic, ok := typs[0].(*types.Basic); ok && basic.Kind() == types.UntypedNil {
+		return "", fmt.Errorf("%s, the argument, nil, does not have a type", name)
+	}
 	return g.SetFuncName(name, typs[0])
 }
 
